@@ -42,18 +42,32 @@ theorem assertEmpty_ok {st : St} (h : assertEmpty st = .ok ()) : st.token = [] :
 theorem assertEmpty_cases (st : St) : assertEmpty st = .ok () ∨ assertEmpty st = .error .TokenizerError := by
   unfold assertEmpty; split <;> simp
 
+/-- the guard of `parse_string`: either it passes or it raises TokenizerError. -/
+theorem guard_cases (st : St) :
+    quoteGuard st = .ok () ∨ quoteGuard st = .error .TokenizerError := by
+  unfold quoteGuard
+  split
+  · exact Or.inl rfl
+  · exact assertEmpty_cases st
+
 theorem parseString_inv {ws s st st'} (h : Inv s st) (e : parseString ws st = .ok st') : Inv s st' := by
   unfold parseString at e
-  rcases assertEmpty_cases st with ha | ha
-  · have ht := assertEmpty_ok ha
-    simp only [ha, bind, Except.bind] at e
+  rcases guard_cases st with ha | ha
+  · simp only [ha, bind, Except.bind] at e
     split at e
     · cases e
-    · injection e with e; subst e
-      simp only [Inv, flat_append, flat_single, makeOperand_value] at *
-      rw [ht] at h
-      simp only [List.append_nil] at h
-      rw [ht, List.append_nil, List.append_assoc, List.take_append_drop]; exact h
+    · split at e
+      · injection e with e; subst e
+        simp only [Inv] at *
+        rw [← h]
+        simp only [List.append_assoc, List.take_append_drop]
+      · rename_i hne
+        have ht : st.token = [] := by simpa using hne
+        injection e with e; subst e
+        simp only [Inv, flat_append, flat_single, makeOperand_value] at *
+        rw [ht] at h
+        simp only [List.append_nil] at h
+        rw [ht, List.append_nil, List.append_assoc, List.take_append_drop]; exact h
   · simp [ha, bind, Except.bind] at e
 
 theorem prefix_take_drop {e r : List Char} (h : e.isPrefixOf r = true) : e ++ r.drop e.length = r := by
@@ -293,29 +307,28 @@ def CodesOK (codes : List (List Char)) : Prop := ∀ e ∈ codes, e ≠ []
 
 theorem parseString_err {ws st x} (e : parseString ws st = .error x) : x = .TokenizerError := by
   unfold parseString at e
-  rcases assertEmpty_cases st with ha | ha
+  rcases guard_cases st with ha | ha
   · simp only [ha, bind, Except.bind] at e
     split at e
     · injection e with e; exact e.symm
-    · cases e
+    · split at e <;> cases e
   · simp only [ha, bind, Except.bind] at e
     injection e with e; exact e.symm
 
 theorem parseString_rest {ws st st'} (e : parseString ws st = .ok st') (hne : st.rest ≠ []) :
     st'.rest.length < st.rest.length := by
   unfold parseString at e
-  rcases assertEmpty_cases st with ha | ha
+  rcases guard_cases st with ha | ha
   · simp only [ha, bind, Except.bind] at e
     split at e
     · cases e
     · rename_i n hm
-      injection e with e; subst e
       have hn : 1 ≤ n := by
         split at hm
         · exact dqMatch_pos hm
         · exact sqMatch_pos hm
       have : 0 < st.rest.length := List.length_pos_iff.mpr hne
-      simp only [List.length_drop]; omega
+      split at e <;> (injection e with e; subst e; simp only [List.length_drop]; omega)
   · simp [ha, bind, Except.bind] at e
 
 theorem parseError_err {codes st x} (e : parseError codes st = .error x) : x = .TokenizerError := by
